@@ -99,13 +99,25 @@ func runC17(c *core.Ctx) {
 		}
 		var wg sync.WaitGroup
 		start := make(chan struct{})
+		// arrivals are staggered over the lifetime of the action (and a little beyond)
+		// in half of the rounds, so that some callers arrive exactly while it completes
+		stagger := r.Bool()
+		span := hold + time.Duration(gosched+1)*2*time.Microsecond
 		for g := 0; g < ng; g++ {
 			wg.Add(1)
-			go func(id int64) {
+			delay := time.Duration(0)
+			if stagger {
+				delay = time.Duration(r.Intn(int(span) + 1))
+			}
+			go func(id int64, delay time.Duration) {
 				defer wg.Done()
 				<-start
+				if delay > 0 {
+					for t0 := time.Now(); time.Since(t0) < delay; {
+					}
+				}
 				call(id)
-			}(int64(g))
+			}(int64(g), delay)
 		}
 		close(start)
 		if !joinOrDeadlock(c, &wg, fmt.Sprintf("Once%d", arity), "a round of concurrent Do calls", map[string]any{"arity": arity, "goroutines": ng}) {
